@@ -983,3 +983,100 @@ Proof.
   eapply commitment_injective; eauto.
 Qed.
 End Digest.
+
+(* ---- 8. validation entry points ------------------------------------------------------------------------------- *)
+Section Validation.
+Variable check : tx -> list (option txout) -> tx_context -> N -> outcome unit.
+
+Definition unspent_unknown (unspents : list (option txout)) (idx : nat) : Prop :=
+  nth_error unspents idx = None \/ nth_error unspents idx = Some None.
+
+Lemma missing_never_valid t unspents idx flags :
+  unspent_unknown unspents idx -> is_solution_ok check t unspents idx flags = Ret false.
+Proof. unfold is_solution_ok. intros [H|H]; now rewrite H. Qed.
+
+Lemma count_bad_ge t unspents flags idxs i n :
+  In i idxs -> is_solution_ok check t unspents i flags = Ret false ->
+  count_bad check t unspents flags idxs = Ret n -> (1 <= n)%nat.
+Proof.
+  revert n; induction idxs as [|k r IH]; intros n HI HF H; [destruct HI|].
+  cbn [count_bad] in H. inv_bind_as H ok Hok. inv_bind_as H m Hm. injection H as <-.
+  destruct HI as [->|HI].
+  - rewrite HF in Hok. injection Hok as <-. lia.
+  - specialize (IH m HI HF Hm). destruct ok; lia.
+Qed.
+
+Lemma missing_counted_bad t unspents idx flags n :
+  tx_is_coinbase t = false -> (idx < length (tx_ins t))%nat -> unspent_unknown unspents idx ->
+  bad_solution_count check t unspents flags = Ret n -> (1 <= n)%nat.
+Proof.
+  intros NC L U H. unfold bad_solution_count in H. rewrite NC in H.
+  eapply count_bad_ge; [|apply missing_never_valid; exact U|exact H].
+  apply in_seq. lia.
+Qed.
+
+(* with Tx.missing_unspent as the notion of "unknown" the guard holds for every transaction but a coinbase *)
+Lemma missing_unspent_never_valid_partial t unspents idx flags :
+  tx_is_coinbase t = false -> missing_unspent t unspents idx = true ->
+  is_solution_ok check t unspents idx flags = Ret false.
+Proof.
+  unfold missing_unspent. intros ->. intros H. apply missing_never_valid. unfold unspent_unknown.
+  destruct (nth_error unspents idx) as [[u|]|]; auto; discriminate.
+Qed.
+
+(* repeated validation: the model has no state, the verdict after any history is the verdict of the last state *)
+Definition validate_history (hist : list (tx * list (option txout))) (idx : nat) (flags : N) : list (outcome bool) :=
+  map (fun s => is_solution_ok check (fst s) (snd s) idx flags) hist.
+
+Lemma history_is_fresh hist idx flags k t unspents :
+  nth_error hist k = Some (t, unspents) ->
+  nth_error (validate_history hist idx flags) k = Some (is_solution_ok check t unspents idx flags).
+Proof. intros H. unfold validate_history. rewrite nth_error_map, H. reflexivity. Qed.
+End Validation.
+
+(* the stronger reading — "Tx.missing_unspent(idx) implies not valid" — fails for a coinbase input with a recorded
+   unspent: missing_unspent is True, the recorded script is replaced by b"" and the checker's verdict is returned *)
+Definition missing_unspent_statement : Prop :=
+  forall check t unspents idx flags,
+    missing_unspent t unspents idx = true -> is_solution_ok check t unspents idx flags = Ret false.
+
+Definition coinbase_witness_tx : tx :=
+  mk_tx 1 [mk_txin gen06_coinbase_hash gen06_coinbase_index [x51] [] 4294967295] [mk_txout 50 [x51]] 0.
+
+Lemma missing_unspent_statement_refuted : ~ missing_unspent_statement.
+Proof.
+  intros H.
+  specialize (H (fun _ _ _ _ => Ret tt) coinbase_witness_tx [Some (mk_txout 1 [x00])] O 0 eq_refl).
+  vm_compute in H. discriminate.
+Qed.
+
+Lemma coinbase_ignores_recorded_script check u flags :
+  is_solution_ok check coinbase_witness_tx [Some u] 0 flags
+  = match check coinbase_witness_tx [Some u] (mk_context 0 1 [] [x51] [] 4294967295 0) flags with
+    | Ret _ => Ret true | Raise E_SCRIPT => Ret false | Raise e => Raise e | OutOfFuel => OutOfFuel end.
+Proof. reflexivity. Qed.
+
+(* ---- 9. non-vacuity ----------------------------------------------------------------------------------------------- *)
+Definition ex_hash (b : byte) : bytes := repeatb b 32.
+Definition ex_tx : tx :=
+  mk_tx 2 [mk_txin (ex_hash x11) 0 [x51] [[x01; x02]] 4294967294; mk_txin (ex_hash x22) 7 [] [] 5]
+          [mk_txout 1000 [x76; xa9]; mk_txout 2000 [x00; x14]] 500000.
+Definition ex_ctx : sctx := mk_sctx ex_tx [x76; xa9; x88; xac] 12345.
+(* the same with the other input's scriptSig, witness and sequence and the second output changed *)
+Definition ex_tx' : tx :=
+  mk_tx 2 [mk_txin (ex_hash x11) 0 [x51] [[x01; x02]] 4294967294; mk_txin (ex_hash x22) 7 [x52] [[x09]] 6]
+          [mk_txout 1000 [x76; xa9]; mk_txout 2001 [x00; x15]] 500000.
+Definition ex_ctx' : sctx := mk_sctx ex_tx' [x76; xa9; x88; xac] 12345.
+
+Lemma ex_wf : wf_ctx ex_ctx /\ wf_ctx ex_ctx' /\ in_range 0 ex_ctx /\ in_range 0 ex_ctx'.
+Proof. repeat split; try (repeat constructor); cbn; lia. Qed.
+
+Lemma ex_fed_all : is_ret (fed_of SV_legacy 1 0 ex_ctx) = true /\ is_ret (fed_of SV_bip143 1 0 ex_ctx) = true
+  /\ fed_of SV_legacy 3 5 ex_ctx = Ret Fed_none.
+Proof. vm_compute. auto. Qed.
+
+Lemma ex_single_unchanged :
+  fed_of SV_legacy 3 0 ex_ctx = fed_of SV_legacy 3 0 ex_ctx'
+  /\ fed_of SV_bip143 131 0 ex_ctx = fed_of SV_bip143 131 0 ex_ctx'
+  /\ fed_of SV_legacy 1 0 ex_ctx <> fed_of SV_legacy 1 0 ex_ctx'.
+Proof. vm_compute. repeat split. discriminate. Qed.
